@@ -4,6 +4,7 @@ import (
 	"crypto/sha256"
 	"encoding/json"
 	"fmt"
+	"github.com/aml-org/amf-custom-validator/pkg/config"
 	"io"
 	"math/rand"
 	"os"
@@ -43,7 +44,7 @@ func runOneshot(in io.Reader, permSeed int64) {
 			} else {
 				res["generate"] = fmt.Sprintf("%x", sha256.Sum256([]byte(code)))
 			}
-			o := validate(h.Profile, h.Data, defaultRC())
+			o := validate(h.Profile, h.Data, rcOf(h))
 			res["validate"] = o.Kind + ":" + fmt.Sprintf("%x", sha256.Sum256([]byte(o.Report)))
 		}()
 		b, _ := json.Marshal(res)
@@ -117,6 +118,30 @@ func genC06(g *G, n int, out io.Writer) {
 	}
 	for i := 0; i < 2; i++ {
 		for _, c := range prefixPair(i) {
+			enc.Encode(c)
+		}
+	}
+	// the same profile and data under report configurations that agree in one field and differ in another: the report for
+	// one configuration must not depend on which other configurations the process has served
+	{
+		def := config.DefaultReportConfiguration()
+		base := caseHead{Op: "c06", Profile: prefixPair(9)[1].Profile, Data: prefixPair(9)[1].Data}
+		rcs := []caseRC{
+			{def.ReportSchemaIri, def.LexicalSchemaIri, true},
+			{def.ReportSchemaIri, "http://tenant-b.example.org/dialects/lexical-2.yaml", true},
+			{"http://tenant-b.example.org/dialects/report-2.yaml", def.LexicalSchemaIri, true},
+			{def.ReportSchemaIri, def.LexicalSchemaIri, false},
+			{"", "", true},
+			{def.ReportSchemaIri, "", false},
+		}
+		for k := range rcs {
+			c := base
+			c.Id = 700 + k
+			c.RC = &rcs[k]
+			enc.Encode(c)
+			// and with conforming data (another context table)
+			c.Id = 720 + k
+			c.Data = "[]"
 			enc.Encode(c)
 		}
 	}
